@@ -14,8 +14,10 @@ stream compares ``statypes.Duration`` / ``ConfigMemory`` parsers and printers.
 Oracle S (real code only): lookup precedence, a raised exception leaves the
 held maps untouched, frame condition of a successful step, ADD/REM set
 semantics, JSON round trip, ``Duration(to_iso8601(d)) == d``,
-``ConfigMemory(str(m)) == m``, "no crash" (anything that is not an
-``EdgeDBError`` coming out of apply / to_json / from_json / to_edgeql).
+``ConfigMemory(str(m)) == m``, and: a state the operations accepted can be
+serialised (to_json / from_json / to_edgeql do not raise).  ANY exception from
+``Operation.apply`` counts as a rejection (the property does not prescribe the
+class); classes are recorded in the evidence and compared with the model's.
 
 EdgeQL text cannot be re-parsed in this sandbox (no parser): the printed
 statements are compared with the model's text, not replayed.
@@ -483,17 +485,18 @@ class Real:
         return {'ok': canon_val(env.enc_val_for(name, v))}
 
 
-def classify_crash(where, op, e, env):
-    """stable key for a non-EdgeDB exception escaping a config function"""
-    name = op[2] if op else '*'
+def rejection_kind(op, e, env):
+    """observation label for an exception of `Operation.apply` that is not an
+    EdgeDBError (any exception is a valid rejection; this is only recorded)"""
+    name = op[2]
     cause = ''
-    if isinstance(e, KeyError) and op:
+    if isinstance(e, KeyError):
         vals = op[3] if isinstance(op[3], list) else [op[3]]
         known = {'Port', 'Auth'}
         if any(isinstance(v, dict) and isinstance(v.get('_tname'), str) and v['_tname'] not in known
                for v in vals):
             cause = ':unknown-_tname'
-    return f'crash:{where}:{_kind(name)}:{exc_name(e)}{cause}'
+    return f'{op[0]}:{_kind(name)}:{exc_name(e)}{cause}'
 
 
 def run_sequence(env, real, ops, ctx, stats, tag):
@@ -502,10 +505,12 @@ def run_sequence(env, real, ops, ctx, stats, tag):
     E = env.errors.EdgeDBError
     maps = {s: env.immutables.Map() for s in SCOPES}
     steps = []
+    dumps = {s: [] for s in SCOPES}         # canonical dump of each layer, kept up to date
     for idx, op in enumerate(ops):
         code, scope, name, value = op
         before = maps[scope]
-        before_dump = canon_map(env.enc_map(before))
+        before_dump = dumps[scope]
+        all_before = dict(dumps)
         value_in = json.loads(json.dumps(value))        # private copy: apply may mutate nested dicts
         try:
             after = real.apply([code, scope, name, value_in], before)
@@ -515,11 +520,22 @@ def run_sequence(env, real, ops, ctx, stats, tag):
             after = before
             stats['err'][res] = stats['err'].get(res, 0) + 1
             if not isinstance(e, E):
-                ctx.fail(classify_crash('apply:' + code, op, e, env),
-                         f'Operation.apply raised {res} (not an EdgeDBError): {e}',
-                         {'ops': ops[:idx + 1], 'scope': scope})
-            # S: rejection leaves every layer as it was
-            if canon_map(env.enc_map(before)) != before_dump or maps[scope] is not before:
+                # any exception class is a rejection; the class is an observation only
+                k = rejection_kind(op, e, env)
+                stats['non_edgedb'][k] = stats['non_edgedb'].get(k, 0) + 1
+            # S: REM of a value the coercion accepts never fails (absence is not an error)
+            if code == 'REM' and name in ('objs', 'auths'):
+                try:
+                    o = env.ops.Operation(env.ops.OpCode(code), env.qltypes.ConfigScope(scope), name,
+                                          json.loads(json.dumps(value)))
+                    o.coerce_value(env.spec, env.spec[name], allow_missing=True)
+                    ctx.fail(f'oracle:rem-raises:{name}', f'REM of an acceptable value raised {res}',
+                             {'ops': ops[:idx + 1]})
+                except Exception:     # noqa: BLE001 – the value itself is rejected: fine
+                    pass
+            # S (hard): a rejection leaves all three layers exactly as they were
+            if maps[scope] is not before or \
+                    {s_: canon_map(env.enc_map(maps[s_])) for s_ in SCOPES} != all_before:
                 ctx.fail(f'oracle:reject-mutated:{name}', 'a rejected operation changed the storage',
                          {'ops': ops[:idx + 1]})
         else:
@@ -568,7 +584,8 @@ def run_sequence(env, real, ops, ctx, stats, tag):
                 ctx.fail(f'oracle:validity:{name}:{"accepted" if res == "ok" else "rejected"}',
                          'SET accepted a value outside the setting\'s type' if res == 'ok' else
                          'SET rejected a value of the setting\'s type', {'ops': ops[:idx + 1]})
-        steps.append([res, canon_map(env.enc_map(maps[scope]))])
+        dumps[scope] = canon_map(env.enc_map(maps[scope]))
+        steps.append([res, dumps[scope]])
 
     # end of sequence: lookup, JSON, EdgeQL on each layer
     sess, db, inst = maps['SESSION'], maps['DATABASE'], maps['INSTANCE']
@@ -699,7 +716,7 @@ def run(ctx: core.Ctx):
         for i, ops in enumerate(gen_exhaustive(env, depth)):
             seqs.append((ops, f'exh{depth}'))
 
-    stats = {'err': {}, 'ok': {}}
+    stats = {'err': {}, 'ok': {}, 'non_edgedb': {}}
     obs, lines = [], []
     for ops, tag in seqs:
         obs.append(run_sequence(env, real, ops, ctx, stats, tag))
@@ -906,6 +923,22 @@ def run(ctx: core.Ctx):
         if r != m:
             disagree(f'corr:{kind}:{x!r}', f'statypes {kind} differs', {'input': x, 'real': r, 'model': m})
 
+    # ------------------------------------------- level 2: EdgeQL replay (real code only)
+    l2_cases = None
+    if ctx.replay:
+        l2_cases = [f['detail']['l2ops'] for f in rp['failures']
+                    if isinstance(f.get('detail'), dict) and 'l2ops' in f['detail']]
+    l2 = None
+    if not ctx.replay or l2_cases:
+        try:
+            l2 = edgeql_replay_leg(ctx, l2_cases)
+            ctx.log(f"EdgeQL replay: {l2['round_trips_equal']}/{l2['storages']} storages equal after "
+                    f"parse+compile+apply of {l2['statements']} printed statements (bridge setup {l2['bridge_setup_s']} s)")
+        except core.Infra:
+            raise
+        except ImportError as e:
+            raise core.Infra(f'front-end bridge not available: {e}')
+
     if not proved:
         ctx.proof_broken_verdict()
 
@@ -920,14 +953,16 @@ def run(ctx: core.Ctx):
                 'distinct = distinct protocol line, non-trivial = at least one op succeeded. '
                 'Duration/Memory: all |us| <= 2000, unit multiples +-1, random 64-bit values, '
                 'random texts of all surface forms',
-        'samples': [lines[i][:400] for i in sorted({0, len(lines) // 2, len(lines) - 1})] +
+        'samples': [lines[i][:400] for i in sorted({0, len(lines) // 2, len(lines) - 1}) if 0 <= i < len(lines)] +
                    dm_lines[:1] + dm_lines[-1:],
         'sequences': len(seqs), 'ops': sum(len(s[0]) for s in seqs),
         'streams': {t: sum(1 for s in seqs if s[1] == t) for t in sorted({s[1] for s in seqs})},
-        'step_outcomes': {'ok_by_opcode': stats['ok'], 'errors_by_class': stats['err']},
+        'step_outcomes': {'ok_by_opcode': stats['ok'], 'rejections_by_exception_class': stats['err'],
+                          'rejections_not_EdgeDBError (observation; opcode:kind:class)': stats['non_edgedb']},
         'edgeql_texts_compared': len(eq_lines), 'damaged_json_docs': len(fj_lines),
         'duration_memory_cases': len(dm_lines), 'duration_memory_outcomes': dm_hist,
         'disagreements_model_vs_impl': n_dis,
+        'edgeql_replay_level2': l2,
         'exhaustive': False,
         'correspondence': 'real Operation.apply / config.lookup / to_json / from_json / to_edgeql / '
                           'statypes.Duration / ConfigMemory vs Lean EdbVerif.Config / Duration / Memory; '
@@ -1057,6 +1092,227 @@ def damage(rng, doc):
     elif r < 0.8:
         return rng.choice([[], None, 5, 'x'])
     return doc
+
+
+# ------------------------------------------------- level 2: EdgeQL replay leg
+TRICKY = ['a', 'b c', "it's", 'say "hi"', 'back\\slash', '$x$', '$$', 'nl\nnl', 'tab\t', 'é☃', '',
+          "'", '"', '\\', '\\n', '{}', ';', 'x;y', '#c', '`bq`', ' lead', 'trail ', '\x7f', '‮', "a''b"]
+
+
+class Level2:
+    """the REAL spec of the std schema + the front-end bridge: statements printed
+    by `to_edgeql` are parsed (real grammar), compiled (real edgeql compiler),
+    turned into `config.Operation`s (real `staeval.evaluate_to_config_op`) and
+    applied to an empty storage; the result must equal the original storage."""
+
+    def __init__(self):
+        from bridge import env as benv
+        benv.setup()
+        self.std = benv.std_schema()
+        self.std_info = benv.std_info()
+        import immutables
+        from edb.server import config
+        from edb.server.config import ops, types
+        from edb.ir import statypes, staeval, ast as irast
+        from edb.edgeql import qltypes, parser as qlparser, compiler as qlcompiler
+        self.im, self.config, self.ops, self.types, self.st = immutables, config, ops, types, statypes
+        self.staeval, self.irast, self.qltypes = staeval, irast, qltypes
+        self.qlparser, self.qlcompiler = qlparser, qlcompiler
+        self.spec = config.load_spec_from_schema(self.std)
+
+    def kind(self, name):
+        s = self.spec[name]
+        t = s.type
+        if isinstance(t, self.types.ConfigTypeSpec):
+            return 'object:' + t.name
+        base = ('bool' if t is bool else 'int' if t is int else 'str' if t is str else
+                'duration' if t is self.st.Duration else 'memory' if t is self.st.ConfigMemory else
+                'enum:' + t.__name__)
+        return base + ('-set' if s.set_of else '')
+
+    def gen_value(self, rng, name):
+        s = self.spec[name]
+        k = self.kind(name)
+        if k == 'bool':
+            return rng.choice([True, False])
+        if k == 'int':
+            if name in ('__internal_testvalue', '__internal_sess_testvalue'):
+                return rng.choice([0, 1, -1, 42, 2 ** 31, 2 ** 63 - 1, -2 ** 63, rng.randint(-10 ** 9, 10 ** 9)])
+            # other int settings carry schema constraints (e.g. listen_port <= 65535) that only the
+            # EdgeQL compiler enforces, Operation.apply does not: stay inside them
+            return rng.randint(1, 1000)
+        if k == 'str':
+            if s.enum_values:
+                return rng.choice(list(s.enum_values))
+            return rng.choice(TRICKY) if rng.random() < 0.7 else safe_str(rng)
+        if k == 'str-set':
+            return [rng.choice(TRICKY) for _ in range(rng.randint(0, 4))]
+        if k == 'duration':
+            us = rng.choice([0, 1, -1, 10 ** 6, -3600500001, 59999999, 2 ** 63 - 1, -2 ** 63,
+                             rng.randint(-2 ** 63, 2 ** 63 - 1), rng.randint(-10 ** 10, 10 ** 10)])
+            return self.st.Duration(microseconds=us).to_iso8601()
+        if k.startswith('enum:'):
+            return str(rng.choice(list(s.type.type)))
+        if k == 'object:cfg::TestSessionConfig':
+            return {'name': rng.choice(TRICKY)}
+        if k == 'object:cfg::TestInstanceConfig':
+            if rng.random() < 0.5:
+                return {'name': rng.choice(TRICKY)}
+            return {'_tname': 'cfg::TestInstanceConfigStatTypes', 'name': rng.choice(TRICKY),
+                    'durprop': rng.choice([None, 'PT5S', 'PT-0.5S', 'PT1H2M3.000004S'])}
+        if k == 'object:cfg::Auth':
+            d = {'priority': rng.choice([0, 1, 2, 3, -1, 10 ** 6])}
+            if rng.random() < 0.6:
+                d['user'] = rng.choice([['u'], ['u', 'v'], 'w', [], ["o'q"]])
+            if rng.random() < 0.5:
+                d['comment'] = rng.choice(TRICKY)
+            return d
+        if k == 'object:cfg::EmailProviderConfig':
+            d = {'_tname': 'cfg::SMTPProviderConfig', 'name': rng.choice(TRICKY)}
+            if rng.random() < 0.5:
+                d['host'] = rng.choice(['localhost', 'mail.example'])
+            if rng.random() < 0.5:
+                d['port'] = rng.choice([25, 465, 587])
+            if rng.random() < 0.5:
+                d['validate_certs'] = rng.choice([True, False])
+            if rng.random() < 0.5:
+                d['timeout_per_email'] = rng.choice(['PT30S', 'PT1M30S', 'PT0.25S'])
+            if rng.random() < 0.3:
+                d['security'] = rng.choice(['PlainText', 'TLS', 'STARTTLS', 'STARTTLSOrPlainText'])
+            if rng.random() < 0.3:
+                d['password'] = rng.choice(TRICKY)
+            return d
+        return None
+
+    def gen_ops(self, rng):
+        scope = rng.choice(SCOPES)
+        names = []
+        for n in self.spec:
+            s = self.spec[n]
+            k = self.kind(n)
+            if k.startswith('memory'):
+                continue            # to_edgeql cannot print memory values (separate finding)
+            if s.system and scope != 'INSTANCE':
+                continue
+            if k.startswith('object:') and scope == 'SESSION':
+                continue            # CONFIGURE SESSION INSERT is not supported by the compiler
+            names.append(n)
+        ops = []
+        for n in rng.sample(names, min(len(names), rng.randint(1, 6))):
+            if self.kind(n).startswith('object:'):
+                for _ in range(rng.randint(1, 3)):
+                    ops.append(['ADD', scope, n, self.gen_value(rng, n)])
+                if rng.random() < 0.2:
+                    ops.append(['REM', scope, n, ops[-1][3]])
+            else:
+                ops.append(['SET', scope, n, self.gen_value(rng, n)])
+                if rng.random() < 0.1:
+                    ops.append(['RESET', scope, n, None])
+        return ops
+
+    def build(self, ops):
+        m = self.im.Map()
+        for code, scope, name, value in ops:
+            try:
+                m = self.ops.Operation(self.ops.OpCode(code), self.qltypes.ConfigScope(scope), name,
+                                       json.loads(json.dumps(value))).apply(self.spec, m)
+            except Exception:     # noqa: BLE001 – a rejected op: the storage stays as it is
+                pass
+        return m
+
+    def replay(self, text):
+        """text -> (storage, None) | (None, (stage, exception))"""
+        stage = 'parse'
+        try:
+            stmts = self.qlparser.parse_block(text)
+            back = self.im.Map()
+            for ql in stmts:
+                stage = 'compile'
+                ir = self.qlcompiler.compile_ast_to_ir(
+                    ql, schema=self.std,
+                    options=self.qlcompiler.CompilerOptions(modaliases={None: 'default'},
+                                                            in_server_config_op=True))
+                stage = 'evaluate'
+                cfg_ir = ir.expr.expr if isinstance(ir, self.irast.Statement) else ir
+                op = self.staeval.evaluate_to_config_op(cfg_ir, schema=self.std)
+                stage = 'apply'
+                back = op.apply(self.spec, back)
+            return back, None
+        except Exception as e:     # noqa: BLE001
+            return None, (stage, e)
+
+
+def edgeql_replay_leg(ctx, replay_cases=None):
+    t0 = ctx.t0
+    import time as _t
+    t_start = _t.time()
+    l2 = Level2()
+    setup_s = round(_t.time() - t_start, 1)
+    rng = ctx.rng
+    cases = replay_cases if replay_cases is not None else \
+        [l2.gen_ops(rng) for _ in range(ctx.budget(250, 8000))]
+    n_stmt, n_ok, n_empty, kinds, samples = 0, 0, 0, {}, []
+    for ops in cases:
+        m = l2.build(ops)
+        if not m:
+            n_empty += 1
+            continue
+        try:
+            text = l2.ops.to_edgeql(l2.spec, m, True)
+        except Exception as e:     # noqa: BLE001
+            ctx.fail(f'edgeql-replay:to_edgeql:{exc_name(e)}', f'to_edgeql raised {exc_name(e)}: {e}',
+                     {'l2ops': ops})
+            continue
+        n_stmt += text.count(';\n') + 1
+        for k in m:
+            kinds[l2.kind(k)] = kinds.get(l2.kind(k), 0) + 1
+        back, err = l2.replay(text)
+        if err is not None:
+            stage, e = err
+            ctx.fail(f'edgeql-replay:{stage}:{exc_name(e)}',
+                     f'replaying the statements printed by to_edgeql failed at {stage}: {exc_name(e)}: {str(e)[:200]}',
+                     {'l2ops': ops, 'text': text})
+            continue
+        # oracle: the same EFFECTIVE configuration (an entry holding an empty set prints no statement)
+        def eff(mm, k):
+            return l2.config.lookup(k, mm, spec=l2.spec)
+        diff = sorted(k for k in l2.spec if eff(m, k) != eff(back, k))
+        diff += sorted(k for k in set(m) & set(back) if (m[k].scope, m[k].source) != (back[k].scope, back[k].source))
+        if diff:
+            for k in diff:
+                ctx.fail(f'edgeql-replay:differs:{l2.kind(k) if k in l2.spec else k}',
+                         'applying the statements printed by to_edgeql to an empty storage gives a different storage',
+                         {'l2ops': ops, 'text': text, 'setting': k,
+                          'original': repr(m.get(k)), 'replayed': repr(back.get(k))})
+        else:
+            n_ok += 1
+            if len(samples) < 2:
+                samples.append(text[:300])
+    # reachability of the level-1 findings through the real compiler (observations only)
+    probes = []
+    for text in ["CONFIGURE SESSION SET durprop := <duration>'';",
+                 "CONFIGURE SESSION SET durprop := <duration>'PT';",
+                 "CONFIGURE SESSION SET memprop := <cfg::memory>-1024;",
+                 "CONFIGURE SESSION SET __internal_sess_testvalue := 9223372036854775808;"]:
+        back, err = l2.replay(text)
+        if err is not None:
+            probes.append({'statement': text, 'rejected_at': err[0], 'by': exc_name(err[1])})
+            continue
+        o = {'statement': text, 'accepted_as': {k: repr(v.value) for k, v in back.items()}}
+        try:
+            o['json_round_trip'] = l2.config.from_json(l2.spec, l2.config.to_json(l2.spec, back)) == back
+        except Exception as e:     # noqa: BLE001
+            o['json_round_trip'] = 'raises ' + exc_name(e)
+        try:
+            l2.ops.to_edgeql(l2.spec, back, True)
+            o['to_edgeql'] = 'ok'
+        except Exception as e:     # noqa: BLE001
+            o['to_edgeql'] = 'raises ' + exc_name(e)
+        probes.append(o)
+    return {'storages': len(cases) - n_empty, 'statements': n_stmt, 'round_trips_equal': n_ok,
+            'finding_reachability_probes': probes if replay_cases is None else [],
+            'settings_by_kind': kinds, 'bridge_setup_s': setup_s, 'std_schema': l2.std_info,
+            'samples': samples}
 
 
 # hand-written sequences (documented corners; always run first)
